@@ -1,5 +1,6 @@
 """C06 — monetary amounts and rates are accepted only as decimals and preserved exactly."""
 from .common import Report
+from . import accept
 from . import numdate
 from .fieldtab import FieldTab
 
@@ -19,4 +20,5 @@ def run(F, tier):
     numdate.n1(rep, F)
     numdate.n2_n3(rep, F, ft)
     rep.sample({"amount_types": [(t.split("::")[-1], f, c) for t, f, c in numdate.amount_types(ft)]})
+    accept.u6(rep, F, "amount")
     return rep
